@@ -110,8 +110,8 @@ TypeD(name, toks) == Nd("type", name, 0, E0, E0, E0, E0, toks)
 \* token: s spelling, b break permitted after it, g glue (no blank l: before, r: after, b: both), q/y string literal
 \*   b = "S" statement end (a line end, or ";")          "O" after the brace / colon that opens a statement list
 \*       "L" after the brace that opens a literal        "K" after a comma of a literal
-\*       "W" after the brace that opens the body of a switch: a line ends there, but the interpreter accepts no comment
-\*           between that brace and the first case
+\*       "W" after the brace that opens the body of a switch and after the colon of a label: a line ends there, but the
+\*           interpreter accepts no comment between that brace and the first case / between the label and its loop
 \*       "A" after a comma of a call's argument list: a line may end there, but (the interpreter's line splitter looks at
 \*           the last character of the line) not with a comment
 \*       "T" optional trailing comma before the closing brace of a literal (present only when a break is taken there)
@@ -205,7 +205,7 @@ TkH(s) ==
     [] s.k = "forc"  -> <<Tok("for")>> \o TkE(s.a[1]) \o Block(s.b, BODYOPEN)
     [] s.k = "fori"  -> <<Tok("for")>> \o Block(s.b, BODYOPEN)
     [] s.k = "forr"  -> <<Tok("for")>> \o Names(s.y) \o <<Tok(s.s), Tok("range")>> \o TkE(s.a[1]) \o Block(s.b, BODYOPEN)
-    [] s.k = "lab"   -> <<Tok(s.s), TokB(":", "l", "O")>> \o TkH(s.a[1])
+    [] s.k = "lab"   -> <<Tok(s.s), TokB(":", "l", "W")>> \o TkH(s.a[1])       \* (no comment between a label and its loop)
     [] s.k = "brk"   -> <<Tok("break")>> \o (IF s.s = "" THEN E0 ELSE <<Tok(s.s)>>)
     [] s.k = "cnt"   -> <<Tok("continue")>> \o (IF s.s = "" THEN E0 ELSE <<Tok(s.s)>>)
     [] s.k = "sw"    -> <<Tok("switch")>> \o Hdr(s.d) \o (IF s.a = E0 THEN E0 ELSE TkE(s.a[1])) \o <<SWOPEN>>
